@@ -40,6 +40,13 @@ def make_config(rng):
     nt = int(rng.integers(1, 4))
     ns = int(rng.choice([1, 1, 2, 3, 4]))
     ref_lat, ref_lon = float(rng.uniform(-60, 60)), float(rng.uniform(-170, 170))
+    zref = rng.random()
+    if zref < 0.08:      # a reference origin on the equator / the Greenwich meridian / both (a coordinate that is exactly zero)
+        ref_lat = 0.0
+    elif zref < 0.16:
+        ref_lon = 0.0
+    elif zref < 0.2:
+        ref_lat, ref_lon = 0.0, 0.0
     R = 6_371_000.0
     towers = []
     for k in range(nt):
@@ -134,6 +141,7 @@ def variants(raw, rng):
 
 
 def run_case(case):
+    import math
     import os
 
     import numpy as np
@@ -222,6 +230,14 @@ def run_case(case):
                                                         analytic=bool(raw["solver"].get("analytic", False)),
                                                         halo=raw["domain"].get("halo"), precision=raw["solver"].get("precision", "single"))
                 ctx = dict(tower=tw.name, step=i, options=desc)
+                # the tower's local coordinates, from the raw latitude / longitude by the documented equirectangular map
+                rt = [t for t in raw["towers"] if t["name"] == tw.name][0]
+                rlat, rlon = raw["domain"]["ref_lat"], raw["domain"]["ref_lon"]
+                x_own = 6_371_000.0 * math.radians(rt["lon"] - rlon) * math.cos(math.radians(rlat))
+                y_own = 6_371_000.0 * math.radians(rt["lat"] - rlat)
+                counters["tower_xy_checked"] = counters.get("tower_xy_checked", 0) + 1
+                if not (abs(tw.x - x_own) <= 1e-6 and abs(tw.y - y_own) <= 1e-6):
+                    viol.append(dict(what="tower_local_coordinates", got=(tw.x, tw.y), expected=(x_own, y_own), reference=(rlat, rlon), **ctx))
                 names = [t[0] for t in trace]
                 if names.count("steady_state_transport_solver") != 1 or "vertical_profiles" not in names or "compute_wind_fields" not in names:
                     viol.append(dict(what="pipeline_not_taken", trace=names, **ctx))
